@@ -866,7 +866,7 @@ func main() {
 	seed := flag.Uint64("seed", 1, "seed")
 	n := flag.Int("cases", 3000, "number of generated cases")
 	out := flag.String("out", "", "output directory")
-	mode := flag.String("mode", "model", "model | search")
+	mode := flag.String("mode", "model", "model | search | mux")
 	replay := flag.String("replay", "", "replay a case description (JSON file)")
 	flag.Parse()
 	if *out == "" {
@@ -891,12 +891,29 @@ func main() {
 		rc = &c
 		if c.Kind == "search" {
 			*mode = "search"
+		} else if c.Kind == "mux" {
+			*mode = "mux"
+		} else if c.Kind == "rhpstack" {
+			*mode = "rhpstack"
+			*n = 1
 		} else {
 			*mode = "model"
 		}
 	}
 	if *mode == "search" {
 		runSearch(*seed, *n, *out, rc)
+		return
+	}
+	if *mode == "mux" {
+		runMux(*seed, *n, *out, rc)
+		return
+	}
+	if *mode == "rhpstack-child" {
+		rhpStackChild()
+		return
+	}
+	if *mode == "rhpstack" {
+		runRhpStack(*n, *out)
 		return
 	}
 	runModel(*seed, *n, *out, rc)
@@ -1031,6 +1048,9 @@ var findingSeen = map[string]bool{}
 // driver can match them against known_findings.json (an unlisted key is still
 // a failure of the check).
 func findingKey(target string, g guardResult) string {
+	if target == "runtime.IOTree" && g.panicked && strings.Contains(g.panicVal, "key format: malformed input") {
+		return "C16:io-tree-short-key-keyformat-decode-panic"
+	}
 	if target == "stateless.BlockResults.Meta" && g.panicked && strings.Contains(g.panicVal, "nil pointer dereference") {
 		return "C16:stateless-verifyBlockResults-nil-tx-result"
 	}
@@ -1040,6 +1060,8 @@ func findingKey(target string, g guardResult) string {
 func runSearch(seed uint64, n int, out string, rc *Case) {
 	sum := coqout.NewSummary("SEARCH ONLY (no model, not part of the proof): per entry point, valid seeds plus 1-3 stacked mutations (truncate, extend, bit flip, 16/32-bit length fields set to 0/+-1/max, kind byte, delete/duplicate chunk, CBOR heads declaring huge arrays/maps/strings, indefinite lengths, tags, nesting up to 300, splices) and some pure random inputs; failure = panic, > 2 s, or > 256 MiB allocated in one call. distinct = distinct (target, input); non-trivial = the entry point accepted the input")
 	targets := append(searchTargets(), searchTargetsExtra()...)
+	targets = append(targets, searchTargetsJSON()...)
+	targets = append(targets, searchTargetIOTree())
 	sort.Slice(targets, func(i, j int) bool { return targets[i].name < targets[j].name })
 	byName := map[string]searchTarget{}
 	for _, t := range targets {
@@ -1111,6 +1133,12 @@ func runSearch(seed uint64, n int, out string, rc *Case) {
 					if inner, ok := codec.unwrap(t.seeds[rr.Intn(len(t.seeds))]); ok {
 						m, name := mutate(rr, inner)
 						b, origin = codec.wrap(m), "payload:"+name
+					}
+				} else if jsonTargets[t.name] && rr.Chance(75) && len(t.seeds) > 0 {
+					// structure-aware JSON mutation (survives the syntax layer)
+					if m, name, ok := jsonMutate(rr, t.seeds[rr.Intn(len(t.seeds))]); ok {
+						b, origin = m, "json:"+name
+						sum.Count("json-mutation", strings.SplitN(name, ":", 2)[0])
 					}
 				} else if rr.Chance(95) && len(t.seeds) > 0 {
 					b, origin = mutate(rr, t.seeds[rr.Intn(len(t.seeds))])
